@@ -259,6 +259,22 @@ pub fn run(ctx: &Ctx) -> i32 {
         }
         col.layer("FollowFileExecutor tables (child processes)", nf, true, json!({"statements": 8, "tables": ["JSON t", "regex d (end-anchored pattern, lines ending in a blank, empty lines)"], "max_history": 3}));
     }
+    // every driver (batch over files, pipe, command line, follow mode) delivers the same for inputs whose first line
+    // starts with a byte order mark / that contain blank and CR-terminated lines
+    {
+        let defs = format!("{}\n{}", JDEF, RDEF);
+        let jl = jlines();
+        let jin: Vec<String> = vec![format!("{}{}", '\u{feff}', jl[0]), jl[1].to_string(), jl[2].to_string(), "".to_string(), jl[0].to_string()];
+        let rin: Vec<String> = vec!["\u{feff}a 1".to_string(), "b 2".to_string(), "a ".to_string(), "".to_string(), "a 3".to_string()];
+        let mut cases: Vec<(String, String, Vec<String>, bool)> = Vec::new();
+        for s in ["SELECT k, COUNT(*), SUM(v) FROM t GROUP BY k", "SELECT k, v FROM t", "SELECT COUNT(*) FROM t", "SELECT DISTINCT k FROM t"] {
+            cases.push((defs.clone(), s.to_string(), jin.clone(), true));
+        }
+        for s in ["SELECT k, COUNT(*), SUM(v) FROM d GROUP BY k", "SELECT k, v FROM d", "SELECT input FROM d", "SELECT COUNT(*), MIN(v) FROM d"] {
+            cases.push((defs.clone(), s.to_string(), rin.clone(), true));
+        }
+        crate::drivers::run_layer(&col, &cases, &|s| if s.contains("COUNT(") { "aggregate".to_string() } else { "select".to_string() });
+    }
     finish(
         ctx,
         &col,
